@@ -196,10 +196,6 @@ func (s S) Prefix(prefix string) S {
 // Useful for merging lists of states, eg a state group with other states
 // involved in a relation.
 func (s S) Add(states ...S) S {
-	if len(states) == 0 {
-		return s
-	}
-
 	states = append([]S{s}, states...)
 	return slicesUniq(slices.Concat(states...))
 }
